@@ -9,7 +9,7 @@ Mirrors, check for check, what the current code does with *arbitrary* bytes:
 the `DataUnflattener` conventions (a read limiter narrows the view to
 `min(declared, available)` bytes; after a limited read the position is where the
 callee *stopped*, not the end of the declared region; `String::Unflatten` of a
-view without NUL yields the empty string and no error).
+view without NUL is an error).
 
 `none` = the parser returns an error status.  Readers return the unread rest.
 Every recursive call consumes one unit of fuel; `decode` supplies
@@ -20,8 +20,9 @@ suffices.
 namespace Muscle.Wire
 open Muscle Muscle.Gen
 
-/-- `String::Unflatten` on a limited view: bytes up to the first NUL; no NUL ⇒ empty string -/
-def cstr (p : Bytes) : Bytes := if p.contains 0 then p.takeWhile (· != 0) else []
+/-- `String::Unflatten` on a limited view: the bytes up to the first NUL; a view without NUL (or an empty
+    view) is an error (`ReadCString` flags it and `String::Unflatten` now returns that status) -/
+def cstr (p : Bytes) : Option Bytes := if p.contains 0 then some (p.takeWhile (· != 0)) else none
 
 /-- `ReadFlatsWithLengthPrefixes<String>` : `k` × (`len`, `len` bytes) -/
 def decStrItems : Nat → Bytes → Option (List Bytes × Bytes)
@@ -33,9 +34,9 @@ def decStrItems : Nat → Bytes → Option (List Bytes × Bytes)
       match takeN len b with
       | none => none
       | some (p, b) =>
-        match decStrItems k b with
-        | none => none
-        | some (xs, b) => some (cstr p :: xs, b)
+        match cstr p, decStrItems k b with
+        | some s, some (xs, b) => some (s :: xs, b)
+        | _, _ => none
 
 /-- `ByteBufferDataArray::TemplatedUnflatten` item loop -/
 def decRawItems : Nat → Bytes → Option (List Bytes × Bytes)
@@ -118,7 +119,9 @@ def decFields (mx : Nat) : Nat → Nat → Nat → Bytes → List (Bytes × Fiel
           match rd32 b with
           | none => none
           | some (el, b) =>
-            let nm := cstr np
+            match cstr np with
+            | none => none
+            | some nm =>
             -- GetOrCreateMessageField: reuse a same-named field if the type agrees (or B_ANY_TYPE), else B_TYPE_MISMATCH
             let tc? : Option Nat :=
               match lookupField nm acc with
